@@ -399,4 +399,4 @@ PROP = Prop(
                  "the number of extra support points is not asserted (not stated by the property)"],
 )
 
-RULE_EXTRA = ('alpha up to 0.99; enumeration of every class size 1..400 (quick) / 1..3000 (thorough) plus 1e5..1e12; curves with 700-4200 support points.')
+RULE_EXTRA = ('alpha up to 0.99; enumeration of every class size 1..400 (quick) / 1..3000 (thorough) plus 1e5..1e12; curves with 700-4200 support points. User thresholds -inf / +inf; nb_points as np.int8(127) / np.uint8(255).')
